@@ -436,7 +436,7 @@ pub fn emit_unit(db: &Db, contracts: &serde_json::Value, unit: &str) -> UnitOut 
         }
         let mut rw = Rw::new(ints);
         rw.float_unit = float_unit;
-        rw.display_unit = f.trait_.as_deref() == Some("Display");
+        rw.display_unit = f.trait_.as_deref() == Some("Display") || (f.ty == "Derivative" && f.name == "fmt");
         if let Some((o, i)) = db.nested.get(unit) {
             rw.nested = Some((o.clone(), unit.to_string(), i.clone()));
         }
